@@ -50,7 +50,7 @@ class Recur(Exception):
 class Thrown(Exception):
     def __init__(self, exc):
         self.exc = exc
-SPECIAL = {"quote", "if", "do", "let*", "fn*", "loop*", "recur", "letfn*", "try", "throw", "def", "var"}
+SPECIAL = {"quote", "if", "do", "let*", "fn*", "loop*", "recur", "letfn*", "try", "throw", "def", "var", "set!"}
 GENSYM_SAFE = True
 REF_DEFS = {}
 def resolve(s, env):
@@ -218,6 +218,14 @@ def ev_special(name, args, env):
         return ("var", args[0].name)
     if name == "var":
         return ("var", args[0].name)
+    if name == "set!":
+        # (set! (.-field target) val): host fields only; target object, then value, left to right; the value is the result
+        tgt = seq_list(args[0])
+        obj = ev(tgt[1], env) if tgt[0].name.startswith(".-") else ev(tgt[1], env)
+        field = tgt[0].name[2:] if tgt[0].name.startswith(".-") else tgt[2].name[1:]
+        val = ev(args[1], env)
+        setattr(obj, field.replace("-", "_"), val)
+        return val
     raise NotImplementedError(name)
 def canon(x, depth=0):
     if isinstance(x, Closure) or callable(x) and not isinstance(x, (kw.Keyword, vec.PersistentVector, lmap.PersistentMap, lset.PersistentSet, sym.Symbol)):
